@@ -435,13 +435,12 @@ func (m *Muxer) Start() error {
 func (m *Muxer) Close() {
 	m.mutex.Lock()
 	m.closed = true
-	m.mutex.Unlock()
-
-	m.cond.Broadcast()
-
 	for _, stream := range m.streams {
 		stream.close()
 	}
+	m.mutex.Unlock()
+
+	m.cond.Broadcast()
 }
 
 // WriteAV1 writes an AV1 temporal unit.
